@@ -165,3 +165,10 @@ ben("c07-sqrt-geometry", "C07", "stepper/_wave.py", "jnp.sqrt(2)", "jnp.sqrt(2.0
 mut("c04-ifft-infer-last-axis", "C04", "_spectral.py", "            num_points = field_hat.shape[-2]", "            num_points = 2 * (field_hat.shape[-1] - 1)", "inferred num_points wrong for odd N (seeded S27)")
 mut("c18-offset-row", "C18", "ic/_truncated_fourier_series.py", "        noise_hat = (\n            noise_hat.flatten()\n            # the mean mode of the unnormalized rfft is the mean times N^d\n            .at[0]\n            .set(offset * num_points**self.num_spatial_dims)\n            .reshape(fourier_noise_shape)\n        )", "        noise_hat = noise_hat.at[0, 0].set(\n            offset * num_points**self.num_spatial_dims\n        )", "offset written into the whole k_0 = 0 row (seeded S26)")
 ben("c18-offset-full-index", "C18", "ic/_truncated_fourier_series.py", "        noise_hat = (\n            noise_hat.flatten()\n            # the mean mode of the unnormalized rfft is the mean times N^d\n            .at[0]\n            .set(offset * num_points**self.num_spatial_dims)\n            .reshape(fourier_noise_shape)\n        )", "        noise_hat = noise_hat.at[(0,) * noise_hat.ndim].set(\n            offset * num_points**self.num_spatial_dims\n        )", "mean mode addressed by a full zero index")
+
+# ------------------------------------------------------------------------------------------ mutation survey round 1: C18 draw ranges
+mut("c18-blob-variance-range", "C18", "ic/_gaussian_blob.py", "maxval=self.variance_range[1] * self.domain_extent", "maxval=self.variance_range[0] * self.domain_extent", "degenerate variance range")
+mut("c18-sine-amplitude-range", "C18", "ic/_sine_waves_1d.py", "minval=self.amplitude_range[0]", "minval=self.phase_range[0]", "amplitudes drawn from the phase range")
+mut("c18-discontinuity-limit-range", "C18", "ic/_discontinuities.py", "lim_2 = jr.uniform(key_2, (), minval=0.0, maxval=self.domain_extent)", "lim_2 = jr.uniform(key_2, (), minval=1.0, maxval=self.domain_extent)", "limits not uniform over the domain (survey survivor)")
+mut("c18-blob-position-unscaled", "C18", "ic/_gaussian_blob.py", "minval=self.position_range[0] * self.domain_extent", "minval=self.position_range[0]", "position range not scaled by the domain extent")
+ben("c18-discontinuity-minmax-order", "C18", "ic/_discontinuities.py", "lower_limits.append(jnp.minimum(lim_1, lim_2))", "lower_limits.append(jnp.minimum(lim_2, lim_1))", "commuted minimum")
